@@ -966,6 +966,250 @@ Proof.
     + apply (qpost_push af buf ps1 e'); auto. exact I.
 Qed.
 
+(* ---- answers served from the cache *)
+Lemma spec_is_af ev : In ev (trailing (s_buf L s)) -> cache_ok sm spec ev /\ s_af L s = spec.
+Proof.
+  intros Hin. destruct (cache_hit_framework sm s ev Hcache Hin) as [Hok Hf]. rewrite Hsy in Hf. split; [rewrite Hf; exact Hok|symmetry; exact Hf].
+Qed.
+
+Lemma dc_hit_correct b X :
+  is_cred L leqb (s_buf L s) l = (Some b, Some X) -> acc_spec sm true true (af_of L spec) [id] (b, Some X).
+Proof.
+  intros Hhit. unfold is_cred in Hhit. destruct (cred_scan_hit _ _ _ _ Hhit) as (-> & ev & Hin & acc & refused & Hev & Hmem).
+  destruct (spec_is_af ev Hin) as [Hok _].
+  assert (G : ext_ok sm spec X /\ In id X).
+  { destruct Hev as [-> | ->]; cbn [cache_ok] in Hok.
+    - destruct Hok as (_ & Hext & H). split; [exact Hext|]. exact (H l id Hmem Hl).
+    - destruct Hok as (-> & _). discriminate Hmem. }
+  destruct G as [(E1 & E2 & E3) Hid]. split; cbn [fst snd].
+  - split; [intros _|reflexivity]. exists X. split; [exact E1|]. exists id. split; [left; reflexivity|exact Hid].
+  - repeat split; auto. exists id. split; [left; reflexivity|exact Hid].
+Qed.
+
+Lemma ds_hit_correct b X :
+  is_skep L leqb (s_buf L s) l = (Some b, Some X) -> acc_spec sm false true (af_of L spec) [id] (b, Some X).
+Proof.
+  intros Hhit. unfold is_skep in Hhit.
+  destruct (skep_scan_hit L leqb _ _ _ _ Hhit) as (-> & ev & Hin & acc & refused & Hev & Hmem).
+  destruct (spec_is_af ev Hin) as [Hok _].
+  assert (G : ext_ok sm spec X /\ ~ In id X).
+  { destruct Hev as [-> | ->]; cbn [cache_ok] in Hok.
+    - destruct Hok as (_ & Hext & H). split; [exact Hext|]. exact (H l id Hmem Hl).
+    - destruct Hok as (-> & _). discriminate Hmem. }
+  destruct G as [(E1 & E2 & E3) Hid]. split; cbn [fst snd].
+  - split; [discriminate|]. intros Hsk. exfalso. destruct (Hsk _ E1) as (a0 & [<-|[]] & Ha0). exact (Hid Ha0).
+  - repeat split; auto. intros a0 [<-|[]]. exact Hid.
+Qed.
+
+Lemma qpost_same : qpost s ps.
+Proof. split; assumption. Qed.
+
+Lemma dc_query_correct s' a ps' :
+  dc_query oracle L leqb s l ps = Done (s', a) ps' -> acc_spec sm true true (af_of L spec) [id] a /\ qpost s' ps'.
+Proof.
+  intros Hq.
+  assert (Hu : dc_query oracle L leqb s l =
+               match is_cred L leqb (s_buf L s) l with
+               | (Some b, Some e) => ret (s, (b, Some e))
+               | _ => dc_miss
+               end) by reflexivity.
+  rewrite Hu in Hq. clear Hu.
+  destruct (is_cred L leqb (s_buf L s) l) as [[b|] [X|]] eqn:Ehit; try (apply dc_miss_correct; exact Hq).
+  apply ret_Done in Hq. destruct Hq as [Hq ->]. injection Hq as -> ->.
+  split; [apply dc_hit_correct; exact Ehit|apply qpost_same].
+Qed.
+
+Lemma ds_query_correct s' a ps' :
+  st_ds_query oracle L leqb s l ps = Done (s', a) ps' -> acc_spec sm false true (af_of L spec) [id] a /\ qpost s' ps'.
+Proof.
+  intros Hq.
+  assert (Hu : st_ds_query oracle L leqb s l =
+               match is_skep L leqb (s_buf L s) l with
+               | (Some b, Some e) => ret (s, (b, Some e))
+               | _ => ds_miss
+               end) by reflexivity.
+  rewrite Hu in Hq. clear Hu.
+  destruct (is_skep L leqb (s_buf L s) l) as [[b|] [X|]] eqn:Ehit; try (apply ds_miss_correct; exact Hq).
+  apply ret_Done in Hq. destruct Hq as [Hq ->]. injection Hq as -> ->.
+  split; [apply ds_hit_correct; exact Ehit|apply qpost_same].
+Qed.
+
 End Query.
+
+(* a query that computed was asked about an argument of the framework *)
+Lemma x_arg_var_arg (af : fw) x l s v s' : x_arg_var L leqb af x l s = Done v s' -> exists id, get_argument af l = Some id.
+Proof.
+  unfold x_arg_var. intros H. apply bind_Done in H. destruct H as (id & p & Hg & _). apply opt_m_Done in Hg. exists id. tauto.
+Qed.
+Lemma dc_miss_arg oracle (s : dsolver L) l ps r ps' :
+  dc_miss oracle s l ps = Done r ps' ->
+  exists id, get_argument (fold_left ev_apply (pending (s_buf L s)) (s_af L s)) l = Some id.
+Proof.
+  intros Hq. unfold dc_miss in Hq. apply bind_Done in Hq. destruct Hq as ([af buf] & ps1 & Hue & Hq).
+  destruct (update_encoding_spec L leqb _ _ _ _ _ Hue) as (H1 & _). cbn [fst] in H1. rewrite <- H1.
+  cbv zeta in Hq. apply bind_Done in Hq. destruct Hq as (asm & p1 & _ & Hq).
+  apply bind_Done in Hq. destruct Hq as (v & p2 & Hv & _). eapply x_arg_var_arg. exact Hv.
+Qed.
+Lemma ds_miss_arg oracle (s : dsolver L) l ps r ps' :
+  ds_miss oracle s l ps = Done r ps' ->
+  exists id, get_argument (fold_left ev_apply (pending (s_buf L s)) (s_af L s)) l = Some id.
+Proof.
+  intros Hq. unfold ds_miss in Hq. apply bind_Done in Hq. destruct Hq as ([af buf] & ps1 & Hue & Hq).
+  destruct (update_encoding_spec L leqb _ _ _ _ _ Hue) as (H1 & _). cbn [fst] in H1. rewrite <- H1.
+  cbv zeta in Hq. apply bind_Done in Hq. destruct Hq as (asm & p1 & _ & Hq).
+  apply bind_Done in Hq. destruct Hq as (v & p2 & Hv & _). eapply x_arg_var_arg. exact Hv.
+Qed.
+
+(* ================================================================ Part F: every history *)
+Notation reach := (DynDefs.reach L leqb).
+Notation areach := (areach L leqb).
+Notation fresh := (DynDefs.fresh_fw L leqb).
+Notation run_ops := (Store.run_ops L leqb).
+
+Lemma areach_reach oracle k s ps os : areach oracle k s ps os -> reach k s os.
+Proof.
+  induction 1 as [ps0 s ps Hn|s ps os o Hr IH|s ps os thr fuel q cert l s' a ps' Hr IH Hq].
+  - eapply reach_new. exact Hn.
+  - apply reach_update. exact IH.
+  - eapply reach_query; [exact IH|exact Hq].
+Qed.
+
+(* what is known between two calls *)
+Record between (k : dkind) (s : dsolver L) (os : list (op L)) : Prop := {
+  bw_kind : s_kind L s = k;
+  bw_inv : Inv (s_af L s);
+  bw_att : att_inv L leqb k (s_af L s) (s_buf L s);
+  bw_sync : fold_left ev_apply (pending (s_buf L s)) (s_af L s) = run_ops fresh os }.
+
+Lemma reach_between k s os : reach k s os -> att_kind k -> between k s os.
+Proof.
+  intros Hr Hk. pose proof (reach_frame_inv L leqb _ _ _ Hr) as [Hkind _ Hs Hf].
+  destruct (att_inv_reach L leqb leqb_spec k s os Hr Hk) as [Hinv Hi].
+  split; auto. unfold DynDefs.synced in Hs. unfold DynDefs.spec_fw in Hf. rewrite Hkind in Hs, Hf.
+  destruct k; try destruct Hk; congruence.
+Qed.
+
+Section Step.
+Variable oracle : nat -> cnf -> list lit -> answer.
+Hypothesis Hvalid : valid_oracle oracle.
+Variable k : dkind.
+Hypothesis Hk : att_kind k.
+Variable s : dsolver L.
+Variable ps : Prog.st.
+Variable os : list (op L).
+Hypothesis Hb : between k s os.
+Hypothesis Hq0 : qpost k s ps.
+
+Lemma dc_query_post l s' a ps' :
+  dc_query oracle L leqb s l ps = Done (s', a) ps' -> qpost k s' ps'.
+Proof.
+  intros Hq. destruct Hb as [_ Hinv Hi Hsy]. destruct Hq0 as [Hcj Hcache].
+  assert (Hu : dc_query oracle L leqb s l =
+               match is_cred L leqb (s_buf L s) l with
+               | (Some b, Some e) => ret (s, (b, Some e))
+               | _ => dc_miss oracle s l
+               end) by reflexivity.
+  rewrite Hu in Hq. clear Hu.
+  destruct (is_cred L leqb (s_buf L s) l) as [[b|] [X|]] eqn:Ehit.
+  1:{ apply ret_Done in Hq. destruct Hq as [Hq ->]. injection Hq as -> ->. split; assumption. }
+  all: destruct (dc_miss_arg _ _ _ _ _ _ Hq) as (id & Hid); rewrite Hsy in Hid;
+    exact (proj2 (dc_miss_correct oracle Hvalid k s ps _ l id Hinv Hi Hcj Hcache Hsy Hid _ _ _ Hq)).
+Qed.
+
+Lemma ds_query_post l s' a ps' :
+  st_ds_query oracle L leqb s l ps = Done (s', a) ps' -> qpost k s' ps'.
+Proof.
+  intros Hq. destruct Hb as [_ Hinv Hi Hsy]. destruct Hq0 as [Hcj Hcache].
+  assert (Hu : st_ds_query oracle L leqb s l =
+               match is_skep L leqb (s_buf L s) l with
+               | (Some b, Some e) => ret (s, (b, Some e))
+               | _ => ds_miss oracle s l
+               end) by reflexivity.
+  rewrite Hu in Hq. clear Hu.
+  destruct (is_skep L leqb (s_buf L s) l) as [[b|] [X|]] eqn:Ehit.
+  1:{ apply ret_Done in Hq. destruct Hq as [Hq ->]. injection Hq as -> ->. split; assumption. }
+  all: destruct (ds_miss_arg _ _ _ _ _ _ Hq) as (id & Hid); rewrite Hsy in Hid;
+    exact (proj2 (ds_miss_correct oracle Hvalid k s ps _ l id Hinv Hi Hcj Hcache Hsy Hid _ _ _ Hq)).
+Qed.
+
+(* the public entry point: only the supported queries return *)
+Lemma strip_Done (m : Prog.M (dsolver L * answer_t)) (cert : bool) s' a ps' :
+  (r <- m ;; ret (fst r, if cert then snd r else (fst (snd r), None))) ps = Done (s', a) ps' ->
+  exists r, m ps = Done r ps' /\ s' = fst r /\ a = (if cert then snd r else (fst (snd r), None)).
+Proof.
+  intros H. apply bind_Done in H. destruct H as (r & p1 & Hm & H). apply ret_Done in H. destruct H as [H ->].
+  injection H as -> ->. exists r. auto.
+Qed.
+
+End Step.
+
+Lemma dyn_query_post oracle k s ps os thr fuel q cert l s' a ps' :
+  valid_oracle oracle -> att_kind k -> between k s os -> qpost k s ps ->
+  dyn_query oracle L leqb thr fuel s q cert l ps = Done (s', a) ps' -> qpost k s' ps'.
+Proof.
+  intros Hvalid Hk Hb Hq0 Hq. unfold dyn_query in Hq. rewrite (bw_kind _ _ _ Hb) in Hq.
+  destruct k; try destruct Hk; destruct q; try discriminate Hq;
+    apply strip_Done in Hq; destruct Hq as ([s1 a1] & Hm & -> & _); cbn [fst];
+    first [exact (dc_query_post oracle Hvalid _ s ps os Hb Hq0 _ _ _ _ Hm)
+          |exact (ds_query_post oracle Hvalid _ s ps os Hb Hq0 _ _ _ _ Hm)].
+Qed.
+
+Lemma dyn_query_answer oracle k s ps os thr fuel q cert l id s' a ps' :
+  valid_oracle oracle -> att_kind k -> between k s os -> qpost k s ps ->
+  get_argument (run_ops fresh os) l = Some id ->
+  dyn_query oracle L leqb thr fuel s q cert l ps = Done (s', a) ps' ->
+  acc_spec (kind_spec_sem k) (query_pol q) cert (af_of L (run_ops fresh os)) [id] a.
+Proof.
+  intros Hvalid Hk Hb Hq0 Hl Hq. destruct Hb as [Hkind Hinv Hi Hsy]. destruct Hq0 as [Hcj Hcache].
+  unfold dyn_query in Hq. rewrite Hkind in Hq.
+  destruct k; try destruct Hk; destruct q; try discriminate Hq;
+    apply strip_Done in Hq; destruct Hq as ([s1 a1] & Hm & _ & ->); cbn [fst snd kind_spec_sem query_pol].
+  - apply (acc_spec_strip CO true cert _ _ a1).
+    exact (proj1 (dc_query_correct oracle Hvalid _ s ps _ l id Hinv Hi Hcj Hcache Hsy Hl _ _ _ Hm)).
+  - apply (acc_spec_strip ST true cert _ _ a1).
+    exact (proj1 (dc_query_correct oracle Hvalid _ s ps _ l id Hinv Hi Hcj Hcache Hsy Hl _ _ _ Hm)).
+  - apply (acc_spec_strip ST false cert _ _ a1).
+    exact (proj1 (ds_query_correct oracle Hvalid _ s ps _ l id Hinv Hi Hcj Hcache Hsy Hl _ _ _ Hm)).
+Qed.
+
+Lemma qpost_areach oracle k s ps os :
+  valid_oracle oracle -> areach oracle k s ps os -> att_kind k -> qpost k s ps.
+Proof.
+  intros Hvalid Hr Hk.
+  induction Hr as [ps0 s ps Hn|s ps os o Hr IH|s ps os thr fuel q cert l s' a ps' Hr IH Hq].
+  - unfold dyn_new in Hn. destruct k; try destruct Hk;
+      apply bind_Done in Hn; destruct Hn as (u & ps1 & _ & Hn); apply Done_inj in Hn; destruct Hn as [<- _];
+      (split; [cbn [s_buf b_enc]; intros e E; injection E as <-; left; reflexivity|]);
+      (split; cbn [s_buf s_af]; unfold DynDefs.trailing; cbn; [tauto|congruence]).
+  - destruct IH as [Hcj Hcache]. pose proof (areach_reach _ _ _ _ _ Hr) as Hreach.
+    pose proof (reach_frame_inv L leqb _ _ _ Hreach) as [Hkind _ _ _].
+    assert (Hnd : not_dummy (s_kind L s)) by (rewrite Hkind; apply att_kind_not_dummy; exact Hk).
+    destruct (update_touches_no_encoder L leqb s o Hnd) as (Haf & Hen & _).
+    split; [rewrite Hen; exact Hcj|].
+    pose proof (buf_update_spec L leqb (s_buf L s) o) as Hbu. cbv zeta in Hbu. destruct Hbu as (_ & _ & _ & _ & Hcase).
+    unfold dyn_update. rewrite Hkind.
+    assert (G : forall b, b = fst (buf_update L leqb (s_buf L s) o) ->
+                cache_J (sem_of (kind_sem k)) {| s_kind := k; s_af := s_af L s; s_buf := b |}).
+    { intros b ->. destruct Hcase as [(_ & ev & Hev & Hbf & _)|(_ & E)].
+      - unfold cache_J, DynDefs.trailing. cbn [s_buf s_af]. rewrite Hbf, (trailing_snoc L), Hev.
+        split; [intros ev' []|congruence].
+      - rewrite E. destruct Hcache as [C1 C2]. split; cbn [s_buf s_af]; assumption. }
+    destruct k; try destruct Hk;
+      destruct (buf_update L leqb (s_buf L s) o) as [b r]; cbn [fst snd s_af s_buf] in *; apply G; reflexivity.
+  - pose proof (areach_reach _ _ _ _ _ Hr) as Hreach.
+    exact (dyn_query_post oracle k s ps os _ _ _ _ _ _ _ _ Hvalid Hk (reach_between k s os Hreach Hk) IH Hq).
+Qed.
+
+(* the functional theorem (goal 4) *)
+Theorem att_query_correct oracle k s ps os thr fuel q cert l id s' a ps' :
+  valid_oracle oracle -> areach oracle k s ps os -> att_kind k ->
+  get_argument (run_ops fresh os) l = Some id ->
+  dyn_query oracle L leqb thr fuel s q cert l ps = Done (s', a) ps' ->
+  acc_spec (kind_spec_sem k) (query_pol q) cert (af_of L (run_ops fresh os)) [id] a.
+Proof.
+  intros Hvalid Hr Hk Hl Hq. pose proof (areach_reach _ _ _ _ _ Hr) as Hreach.
+  exact (dyn_query_answer oracle k s ps os thr fuel q cert l id s' a ps' Hvalid Hk (reach_between k s os Hreach Hk)
+           (qpost_areach oracle k s ps os Hvalid Hr Hk) Hl Hq).
+Qed.
 
 End Fun.
